@@ -538,7 +538,7 @@ pub fn use_fast_tmp() {
 pub fn run(cfg: &Cfg, out: &mut Out) {
     use_fast_tmp();
     let mut r = cfg.rng(11);
-    let total = cfg.n(2500, 40_000);
+    let total = cfg.n(2000, 40_000);
     let mut test_repo = TestRepo::init();
     for f in FIXED { scripted(out, &test_repo, f); }
     for k in 0..total {
